@@ -120,6 +120,15 @@ Theorem C03_unsigned_probe : forall idx S, - 2 ^ 63 <= idx < 2 ^ 63 -> 0 <= S < 
   (idx mod 2 ^ 64 <? S mod 2 ^ 64) = ((0 <=? idx) && (idx <? S)).
 Proof. exact unsigned_below. Qed.
 
+(** the frame: with [pushes] callee-saved registers pushed and [sub_bytes] reserved by the prologue
+    (checked on the emitted code together with the matching epilogue), every stack temporary's slot
+    [rsp + 8 t] lies inside the reserved area and rsp is 16-byte aligned in the body *)
+Theorem C03_frame : forall temps pushes sub_bytes, frame_ok temps pushes sub_bytes = true ->
+  forall rsp0, (rsp0 + 8) mod 16 = 0 ->
+  (rsp0 - 8 * pushes - sub_bytes) mod 16 = 0 /\
+  (forall t, 0 <= t < temps -> 0 <= 8 * t /\ 8 * t + 8 <= sub_bytes).
+Proof. exact frame_ok_sound. Qed.
+
 (** the template the JIT emits for  Inp(-1)  with temporaries 4, 5, 6 live (three pushes and the
     alignment word) is accepted; without the alignment word, or jumping before the pops, it is not *)
 Example C03_call_nonvacuous :
@@ -146,3 +155,4 @@ Print Assumptions C03_output_template.
 Print Assumptions C03_branch_template.
 Print Assumptions C03_mov_template.
 Print Assumptions C03_unsigned_probe.
+Print Assumptions C03_frame.
